@@ -91,13 +91,24 @@ package json
 //@   loop 1 invariant [C10_stack] p.currPath == old(p.currPath)
 //@   loop 1 decreases len(b) - n
 
+//@ func json.(*parserState).consumeValue
+//@   requires ibOK(p, b) && capOK(p)
+//@   requires 0 <= lvl && lvl <= p.maxRecursion + 1
+//@   assigns p.ib, p.currPath, p.firstToken, p.querySatisfied
+//@   ensures 0 <= n && n <= len(b)
+//@   ensures ok ==> n > 0
+//@   ensures [C08C09_J2] old(p.ib) <= p.ib && p.ib <= old(p.ib) + len(b)
+//@   ensures [C08_J1] ok ==> p.ib == old(p.ib) + n
+//@   ensures [C10_stack_grows] len(p.currPath) >= old(len(p.currPath))
+//@   ensures [C10_stack_restored] ok ==> p.currPath == old(p.currPath)
+//@   decreases p.maxRecursion + 2 - lvl, 0
+
 //@ func json.(*parserState).consumeAny
 //@   requires ibOK(p, b) && capOK(p)
 //@   requires 0 <= lvl && lvl <= p.maxRecursion + 1
 //@   assigns p.ib, p.currPath, p.firstToken, p.querySatisfied
 //@   ensures 0 <= n && n <= len(b)
-//@   ensures [C08C09_J2] old(p.ib) <= p.ib && p.ib <= old(p.ib) + len(b)
-//@   ensures [C08_J1] (n > 0 && lvl > 0) ==> p.ib == old(p.ib) + n
-//@   ensures [C10_stack_grows] len(p.currPath) >= old(len(p.currPath))
-//@   ensures [C10_stack_restored] (n > 0 && lvl > 0) ==> p.currPath == old(p.currPath)
-//@   decreases p.maxRecursion + 2 - lvl, 0
+
+//@ func json.Parse$1
+//@   requires p != nil
+//@   assigns p.currPath
